@@ -213,8 +213,11 @@ CLAIMED = {
             "disjoint regions does). A routine that calls a routine: the register chr, in any program map holding chr and "
             "malloc, returns a fresh allocator block holding [1; c] (C19_chr_reg_contract; the callee's contract is reused "
             "inside the caller's run); the stack chr likewise, with two frames on the stack and the stack malloc as callee, for a "
-            "stack that does not wrap and lies on one side of the heap (C19_chr_stack_contract). NOT theorems: concat, substring "
-            "(apart from their copy loop), tstrcmp, the failure path of malloc "
+            "stack that does not wrap and lies on one side of the heap (C19_chr_stack_contract). The register tstrcmp (a Python "
+            "helper over memory, hand model Model/Stdlib.tstrcmp_reg tied by correspondence) is the lexicographic comparison of "
+            "the two character lists for strings of any length (C19_tstrcmp_reg_is_lexicographic, _zero_iff_equal, "
+            "_antisymmetric). NOT theorems: concat, substring "
+            "(apart from their copy loop), the stack tstrcmp, the failure path of malloc "
             "(prints and exits) and the I/O functions — decided by running each "
             "function in both conventions on the real interpreter with edge/random arguments under random register "
             "contents (result vs independent computation, return to the caller, SP/FP restored, R1..R10 preserved in the "
